@@ -114,3 +114,28 @@ func TestVerifC13CLIReplayDir(t *testing.T) {
 		}
 	}
 }
+
+// TestVerifReplay replays one saved CLI case (VERIF_REPLAY; run.py --replay routes the
+// failure files of the cli / clireplay jobs to this package).
+func TestVerifReplay(t *testing.T) {
+	c13Env()
+	ev := evid.For(c13Prop)
+	defer evid.Flush(0)
+	var c c13.Case
+	ok, err := evid.LoadReplay(&c)
+	if !ok {
+		t.Skip("no VERIF_REPLAY")
+	}
+	if err != nil {
+		t.Fatal(err)
+	}
+	if !c.CLI {
+		t.Skip("not a CLI case")
+	}
+	for i := 0; i < 3; i++ {
+		v := evid.Guard(func() *evid.Violation { return c13Check(c, ev) })
+		if ev.Report(v, c) {
+			t.Fatalf("%v", v)
+		}
+	}
+}
